@@ -80,7 +80,7 @@ func c17Structural(tag string, maxLen, A int) {
 		return
 	}
 	rec := &c16rec{}
-	err := c16Decoder().Decode(rec, b)
+	err := c16DecoderWithHistory(b).Decode(rec, b)
 	var cl c17classes
 	nf := false
 	c17Walk(err, &cl, nil, &nf, 0)
@@ -138,6 +138,20 @@ func Verif_C17_structural_small() {
 		verifWant("small-" + w)
 	}
 	c17Structural("small-", n, 4)
+}
+
+// a decoder object that has already decoded another UPDATE classifies the next one like a fresh decoder
+func Verif_C17_decoder_reuse() {
+	n := 10
+	if verifTier() >= 1 {
+		n = 12
+	}
+	verifNote("C17(a) on a decoder object that has already decoded one UPDATE (the 4 histories of Verif_C16_decoder_reuse): every body of length <= 10 (quick) / 12 (thorough)")
+	c16Hist = 1 + verifChoose("history", 4)
+	for _, w := range []string{"clean", "missing-mandatory"} {
+		verifWant("reuse-" + w)
+	}
+	c17Structural("reuse-", n, 3)
 }
 
 func Verif_C17_structural_lengths() {
